@@ -204,6 +204,14 @@ def gen_history(rng, uname, pfx):
 
 CORNERS = [
     # hand-written histories around the places the algorithm is delicate (kept tiny)
+    # a leaf/node conflict with a sibling that sorts between the leaf and the paths below it ('job' < 'job.id' < 'job/')
+    {"pfx": "view", "u": "jobnest", "ops": [["add", {"a": 1}], ["add", {"a": 1, "job": {"id": 7}}], ["add", {"c": 3}],
+                                            ["view", None, None], ["add", {"a": 1, "job": 5}], ["view", None, None]]},
+    {"pfx": "view", "u": "jobnest", "ops": [["add", {"a": 1}], ["add", {"a": 1, "job": {"-x": 1}}],
+                                            ["add", {"a": 1, "job": 5}], ["view", None, None]]},
+    # the view directory moved to another depth between two runs
+    {"pfx": "view", "u": "homog", "ops": [["add", {"a": 1}], ["add", {"a": 2}], ["view", None, None], ["mvview"],
+                                          ["view", None, None], ["add", {"a": 3}], ["view", None, None]]},
     {"pfx": "view", "u": "homog", "ops": [["view", None, None]]},
     {"pfx": "view", "u": "homog", "ops": [["add", {"a": 1}], ["view", None, None], ["view", None, None],
                                           ["add", {"a": 2}], ["view", None, None], ["remove", {"a": 1}],
